@@ -217,8 +217,11 @@ def run_regulator_case(case):
             "(rate > 0, low_utilisation <= high_allocation, low_scale < 1 < high_scale) "
             "reject")
     for index, step in enumerate(case["steps"]):
-        utilisation, allocation, extra = step
+        utilisation, allocation, extra = step[:3]
         pool.utilisation, pool.allocation = utilisation, allocation
+        if len(step) > 3:
+            # somebody else (an operator, another controller) has moved the demand meanwhile
+            pool.demand = step[3]
         if kind == "linear":
             interval = extra
         else:
@@ -252,7 +255,7 @@ def run_regulator_case(case):
 
 def regulator_nontrivial(case):
     low, high = case["low"], case["high"]
-    for utilisation, allocation, _ in case["steps"]:
+    for utilisation, allocation, *_ in case["steps"]:
         if abs(utilisation - low) < DELTA or abs(allocation - high) < DELTA:
             return True
         if utilisation < low and allocation > high:
@@ -263,7 +266,8 @@ def regulator_nontrivial(case):
 def regulator_outcome(case):
     low, high = case["low"], case["high"]
     return (case["kind"],) + tuple(
-        (u < low, a > high) for u, a, _ in case["steps"]) if valid_params(case) else (
+        (u < low, a > high) + (("moved",) if rest[1:] else ())
+        for u, a, *rest in case["steps"]) if valid_params(case) else (
         case["kind"], "rejected")
 
 
@@ -323,6 +327,15 @@ def shard_regulator(args):
                             check_case(acc, case, run_regulator_case(case),
                                        regulator_nontrivial(case), regulator_outcome(case),
                                        depth)
+                            if depth >= 2 and cinterval == CTOR_INTERVALS[0]:
+                                # the same, with a foreign change of the demand before the
+                                # last step (also: the very same step repeated)
+                                for outside in (17.0, 0.0):
+                                    moved = list(steps[:-1]) + [tuple(steps[-1]) + (outside,)]
+                                    case = {**base, "demand": demand, "supply": supply,
+                                            "steps": moved}
+                                    check_case(acc, case, run_regulator_case(case), True,
+                                               regulator_outcome(case), depth)
     return acc
 
 
@@ -407,6 +420,14 @@ def build_stepwise(case, pool, log):
     rules = [(threshold, make_rule(index + 1))
              for index, threshold in enumerate(case["thresholds"])]
     route, interval = case["route"], case["interval"]
+    if case.get("earlier") is not None:
+        # an earlier controller built from the very same base rule, with another table
+        def stray(*args, **kwargs):
+            log.append((trioclock.now(), "rule", "stray", args, kwargs))
+            return 99.0
+
+        Stepwise(make_state_pool()(3.0, 0.0, 1.0, 1.0), base,
+                 *[(threshold, stray) for threshold in case["earlier"]], interval=interval)
     if route == "direct":
         return Stepwise(pool, base, *rules, interval=interval)
     unbound = UnboundStepwise(base)
@@ -517,6 +538,14 @@ def shard_stepwise(args):
                     for s in supplies) if len(supplies) < 3 else len(supplies))
                 check_case(acc, case, problem, nontrivial, outcome, len(supplies))
                 acc.traces += 1
+                if len(supplies) == 1 and route in ("direct", "add-call"):
+                    for earlier in ([], [1.0], [2.5, 7.0]):
+                        if list(earlier) == list(thresholds):
+                            continue
+                        case2 = dict(case, earlier=list(earlier))
+                        check_case(acc, case2, run_stepwise_case(case2), True,
+                                   ("stepwise-after-earlier", len(thresholds), len(earlier)), 1)
+                        acc.traces += 1
     return acc
 
 
